@@ -12,6 +12,7 @@ mod pp_obs;
 mod srv;
 mod tree_obs;
 mod util;
+mod vocab_obs;
 mod ws_obs;
 
 use std::io::{BufRead, Write};
@@ -28,6 +29,7 @@ fn handle(item: &Value) -> Value {
         "pos" => pos_obs::pos_item(item),
         "pp" => pp_obs::pp_item(item),
         "wshist" => hist_obs::hist_item(item),
+        "vocab" => vocab_obs::vocab_item(item),
         other => json!({"id": item.get("id"), "outcome": "ToolError", "msg": format!("unknown kind {other}")}),
     }
 }
